@@ -58,6 +58,7 @@ let rec parse_sink (s : string) : sink =
       (match split ':' hd with
        | ["mut"] -> KMut k
        | ["lz"; n; vid] -> KLazy (n_of_string n, nat_of_string vid, k)
+       | ["lzd"; n] -> KLazyDown (n_of_string n, k)
        | _ -> fail_parse "sink" s)
   | None ->
       (match split ':' s with
@@ -87,6 +88,12 @@ let parse_pat (s : string) : (bool * sink) list =
   else List.map (fun item ->
       let front = match item.[0] with 'F' -> true | 'B' -> false | _ -> fail_parse "pat" s in
       (front, parse_sink (String.sub item 1 (String.length item - 1)))) (split ',' s)
+
+let parse_pat_nth (s : string) : (bool * n) list =
+  if s = "-" then []
+  else List.map (fun item ->
+      let front = match item.[0] with 'F' -> true | 'B' -> false | _ -> fail_parse "pat" s in
+      (front, n_of_string (String.sub item 1 (String.length item - 1)))) (split ',' s)
 
 let parse_fin s = match s with "drop" -> FinDrop | "forget" -> FinForget | _ -> fail_parse "fin" s
 let parse_ik s = match s with
@@ -135,6 +142,8 @@ let parse_op (toks : string list) : op =
   | ["swap"; pr; v1; i; v2; j] -> OSwap (nn pr, nat v1, nn i, nat v2, nn j)
   | ["parts"; v; m] -> OParts (nat v, nn m)
   | ["placement"] -> OPlacement
+  | ["iter_nth"; k; v; p] -> OIterNth (parse_ik k, nat v, parse_pat_nth p)
+  | ["lazy_down"; d; v; i] -> OLazyDown (nn d, nat v, nn i)
   | _ -> fail_parse "op" (String.concat " " toks)
 
 let parse_cfg (toks : string list) : cfg =
